@@ -18,6 +18,7 @@ for c in $(git log --format=%h --grep='^fix:'); do
       *"restored into an UnlimitedTTL"*) n=revert_restore_expirations;;
       *"jittered down to exactly zero"*) n=revert_zero_jittered_ttl;;
       *"waited for a key lock owner which did not build"*) n=revert_skipread_waiter;;
+      *"rewritten after it was found expired"*) n=revert_syncmap_cleanup_cad;;
       *) n=revert_$c;;
     esac
   fi
